@@ -122,6 +122,10 @@ def i_pick(eng, st, fr, fn, args, ins):
         v = vector_value(eng, st, name, tid)
         if not (lo <= v <= hi):
             raise PathEnd('assume-false')
+        if fn['name'].endswith('PickOnce'):
+            memo = dict(st.ghost.get('pick_once') or {})
+            memo[name] = v
+            st.ghost['pick_once'] = memo
         _ret(st, ins, v)
         return
     conts = []
@@ -135,9 +139,28 @@ def i_pick(eng, st, fr, fn, args, ins):
         s = st if c == hi else st.clone()
         s.nondet.append((name, tid, c))
         s.frames[-1].regs[ins['reg']] = c
+        if fn['name'].endswith('PickOnce'):
+            memo = dict(s.ghost.get('pick_once') or {})
+            memo[name] = c
+            s.ghost['pick_once'] = memo
         s.trace.append('%s=%d' % (name, c))
         conts.append(s)
     eng.fork_from(st, conts)
+
+
+def i_pick_once(eng, st, fr, fn, args, ins):
+    name = args[0]
+    memo = st.ghost.get('pick_once') or {}
+    if name in memo:
+        _ret(st, ins, memo[name])
+        return
+    before = len(st.nondet)
+    # fork like Pick, then remember the value on every continuation
+    i_pick(eng, st, fr, fn, args, ins)
+
+
+def _remember_pick(eng, st, name):
+    pass
 
 
 def i_assume(eng, st, fr, fn, args, ins):
@@ -298,6 +321,7 @@ def i_param(eng, st, fr, fn, args, ins):
 TABLE = {
     P + 'Param': i_param,
     P + 'Pick': i_pick,
+    P + 'PickOnce': i_pick_once,
     P + 'Any': i_any,
     P + 'IntRange': i_intrange,
     P + 'Assume': i_assume,
